@@ -12,6 +12,7 @@ import (
 	"os"
 	"runtime"
 	"sort"
+	"strings"
 
 	"github.com/verily-src/fhirpath-go/fhirpath/zzverif/lib"
 	"google.golang.org/protobuf/proto"
@@ -218,6 +219,18 @@ func run(resPath, casesPath, obsPath string) {
 			rec[k] = v
 		}
 		rec["src"], rec["out"] = c.Text, out
+		// the last element name in other letter cases (Name, NAME, birth_date, birthdate): a name that is not an element of
+		// the type must fail, however close it is to one
+		if c.Kind == "path" && !withMut {
+			if vs := caseVariants(c.Text); len(vs) > 0 {
+				list := []map[string]any{}
+				for _, v := range vs {
+					vo := lib.EvalOutcome(forests[c.Ti-1], v[1], lib.AsResources(resources[c.Ti-1]), nil, nil)
+					list = append(list, map[string]any{"name": v[0], "src": v[1], "out": lib.Outcome{"k": vo["k"], "cls": clsOf(vo)}})
+				}
+				rec["variants"] = list
+			}
+		}
 		// C12 element cases: the same type test on the element handed in as an environment variable - for a choice-typed
 		// element the WRAPPER message itself (Observation_ValueX ...), which the operators must look through
 		if env := envTypeTest(c, forests[c.Ti-1], resources[c.Ti-1]); env != nil {
@@ -340,4 +353,48 @@ func envTypeTest(c caseRec, f *lib.Forest, res proto.Message) map[string]any {
 	src := "%x " + cs.Op + " " + ty
 	out := lib.EvalOutcome(f, src, lib.AsResources(res), nil, []fhirpath.EvaluateOption{evalopts.EnvVariable("x", m)})
 	return map[string]any{"src": src, "out": out}
+}
+
+func clsOf(o lib.Outcome) []string {
+	if c, ok := o["cls"].([]string); ok {
+		return c
+	}
+	return []string{}
+}
+
+// caseVariants returns [name, source] pairs in which the last element name of a dotted path is written in another
+// letter case. Paths that do not end in a plain name (an indexer, a delimited identifier) have none.
+func caseVariants(src string) [][2]string {
+	i := strings.LastIndex(src, ".")
+	if i < 0 || i+1 >= len(src) {
+		return nil
+	}
+	name := src[i+1:]
+	for _, r := range name {
+		if !(r >= 'a' && r <= 'z' || r >= 'A' && r <= 'Z' || r >= '0' && r <= '9') {
+			return nil
+		}
+	}
+	seen := map[string]bool{name: true}
+	var out [][2]string
+	add := func(v string) {
+		if v != "" && !seen[v] {
+			seen[v] = true
+			out = append(out, [2]string{v, src[:i+1] + v})
+		}
+	}
+	add(strings.ToUpper(name[:1]) + name[1:])
+	add(strings.ToUpper(name))
+	add(strings.ToLower(name))
+	snake := ""
+	for k, r := range name {
+		if r >= 'A' && r <= 'Z' && k > 0 {
+			snake += "_"
+		}
+		snake += strings.ToLower(string(r))
+	}
+	if strings.Contains(snake, "_") {
+		out = append(out, [2]string{snake, src[:i+1] + snake})
+	}
+	return out
 }
